@@ -74,6 +74,9 @@ T_Key = TypeVar('T_Key')
 T_Value = TypeVar('T_Value')
 T_Extra = TypeVar('T_Extra')
 T_Zed = TypeVar('T_Zed')
+T_Ma = TypeVar('T_Ma')
+T_Mb = TypeVar('T_Mb')
+T_Mc = TypeVar('T_Mc')
 
 def pair_up(k: T_Key, v: T_Value, e: T_Extra, z: T_Zed) -> dict[T_Key, T_Value]:
 	return {k: v}
@@ -88,6 +91,13 @@ class Slot(Generic[T_Key, T_Value, T_Extra]):
 
 	def swap(self, e: T_Extra, z: T_Zed) -> T_Zed:
 		return z
+
+	def choose(self, first: T_Zed, second: T_Ma, third: T_Mb, fourth: T_Mc) -> T_Mb:
+		return third
+
+	@classmethod
+	def build(cls, one: T_Ma, two: T_Mb, three: T_Mc) -> T_Mc:
+		return three
 
 class Item:
 	n: str
@@ -116,12 +126,14 @@ COUNT: str = 'c'
 '''
 MAIN_V = {
     'v0': 'from c04pool.m1 import make1\n\ndef run(n: int) -> int:\n\tx = make1(n)\n\treturn x.get()\n',
-    'v1': 'from c04pool.m3 import make, wide\n\ndef run(n: str) -> str:\n\tx = make(n)\n\tw = wide(1, \'a\', 1.5, True, 2, \'b\', 2.5, False, 3, \'c\', 4)\n\treturn x.get()\n',
+    'v1': 'from c04pool.m0x import make, wide\n\ndef run(n: str) -> str:\n\tx = make(n)\n\tw = wide(1, \'a\', 1.5, True, 2, \'b\', 2.5, False, 3, \'c\', 4)\n\treturn x.get()\n',
     'bad': 'def run(n: int) -> int:\n\treturn (n +\n',
     # loads, fails while it is transpiled (in the middle of a run of the long-lived transpiler and its procedures)
     'ill': 'from c04pool.m1 import make1\n\ndef run(n: int) -> int:\n\tx = make1(n)\n\ty = [zz_undefined(v) for v in [x.get()]]\n\treturn y[0]\n',
 }
-POOL = {'c04pool.m0': M0, 'c04pool.m1': M1, 'c04pool.m2': M2, 'c04pool.m3': M3}
+# 'c04pool.m1' is a string prefix of 'c04pool.m1x' (its importer) and 'c04pool.m0' of 'c04pool.m0x' (unrelated to it):
+# unloading or exporting one must not touch the other
+POOL = {'c04pool.m0': M0, 'c04pool.m1': M1, 'c04pool.m1x': M2, 'c04pool.m0x': M3}
 MODS = list(POOL)
 
 
@@ -268,16 +280,24 @@ def explore(state, hist, depth, base, out_path, counters):
             os.waitpid(pid, 0)
 
 
+PRELOADED = [['load', m] for m in POOL] + [['transpile', '__main__']]   # the non-initial start state: everything loaded
+
+
 def worker(task):
-    first, depth, base = task
+    first, depth, base = task[:3]
+    prefix = task[3] if len(task) > 3 else []
     state = {'session': new_session(), 'main': 'v0'}
+    for op in prefix:
+        v = apply(state, tuple(op), base)
+        if v:
+            return [{'t': 1, 'viol': [[sig, what, {'history': [list(o) for o in prefix]}] for sig, what in v]}]
     fd, out_path = tempfile.mkstemp(prefix='c04-', suffix='.jsonl')
     os.close(fd)
     try:
         viol = apply(state, tuple(first), base)
-        rows = [{'t': 1, 'viol': [[sig, what, {'history': [list(first)]}] for sig, what in viol]}]
+        rows = [{'t': 1, 'viol': [[sig, what, {'history': [list(o) for o in prefix] + [list(first)]}] for sig, what in viol]}]
         if not viol:
-            explore(state, [list(first)], depth - 1, base, out_path, None)
+            explore(state, [list(o) for o in prefix] + [list(first)], depth - 1, base, out_path, None)
         with open(out_path) as f:
             rows += [json.loads(l) for l in f if l.strip()]
     finally:
@@ -335,7 +355,7 @@ def order_task(task):
 
 def target_orders(ctx):
     import itertools
-    names = [n for n in order_sources() if not (ctx.quick and n == 'm3')]
+    names = [n for n in order_sources() if not (ctx.quick and n == 'm0x')]
     perms = list(itertools.permutations(names))
     tasks = [(p, False) for p in perms] + [(p, True) for p in perms]
     res = pool.pmap(order_task, tasks, workers=ctx.workers)
@@ -368,6 +388,8 @@ def run(ctx):
     ops = alphabet()
     # second level as work units for a better balance
     tasks = [(list(op), depth, base) for op in ops]
+    # the same exploration from a non-initial state (every pool module and the main module loaded), one level shallower
+    tasks += [(list(op), depth - 1, base, PRELOADED) for op in ops]
     warm = new_session()
     for m in MODS:
         warm.load(m)
@@ -389,7 +411,7 @@ def run(ctx):
         'traces_validated_against_impl': transitions,
         'samples': samples,
         'max_depth': depth,
-        'bound': f'all operation sequences of length <= {depth} over {len(ops)} operations (load/transpile/unload x {MODS}, submit x {list(MAIN_V)}, transpile __main__, a foreign session with env.transpiler.cvars={FOREIGN_ENV["cvars"]} transpiling m0); sequences are cut at the first violating operation; hash seeds 0/1/5/7/9 for the baselines; CLI layer: all {n_orders // 2} orders of listing the targets (pool modules{" without m3" if ctx.quick else ""} + m4, a second importer of m0 and m1) in config.yml, each on a fresh workspace and after a run in reverse order ({n_orders} forced CLI runs), outputs byte-equal',
+        'bound': f'all operation sequences of length <= {depth} over {len(ops)} operations (load/transpile/unload x {MODS}, submit x {list(MAIN_V)}, transpile __main__, a foreign session with env.transpiler.cvars={FOREIGN_ENV["cvars"]} transpiling m0); the same from the state in which every module is loaded already (length <= {depth - 1}); sequences are cut at the first violating operation; hash seeds 0/1/5/7/9 for the baselines; CLI layer: all {n_orders // 2} orders of listing the targets (pool modules{" without m0x" if ctx.quick else ""} + m4, a second importer of m0 and m1) in config.yml, each on a fresh workspace and after a run in reverse order ({n_orders} forced CLI runs), outputs byte-equal',
         'exhaustive': True,
         'states_note': 'stateless exploration: every history is its own state (no merging, see DESIGN 1)',
         'alphabet': [list(o) for o in ops],
